@@ -277,6 +277,12 @@ func ParentMain(o RunOptions) int {
 	if a.evals == 0 {
 		a.inconcl = append(a.inconcl, "no evaluations")
 	}
+	if len(a.samples) == 0 {
+		a.inconcl = append(a.inconcl, "no sample case recorded")
+	}
+	if len(a.nontrivial) < 2 {
+		a.inconcl = append(a.inconcl, "fewer than two distinct non-trivial cases")
+	}
 
 	// verdicts
 	known := loadKnown()
